@@ -273,7 +273,7 @@ PROPS['C03'] = dict(
     gen=lambda rng, tier: gen.restart_scenario(rng, size=tier),
     p_cmds={'r', 'c', 'ram', 'ra', 'rw', 'counts', 'dmgsweep', 'restart'},
     oracle_cmds={'r', 'c', 'ram', 'ra', 'rw', 'counts', 'states'}, py_oracle=oracle_c03,
-    count={'quick': 64, 'thorough': 600}, timeout=1800,
+    count={'quick': 64, 'thorough': 240}, timeout=2400,
     nontrivial=lambda lines: any(l.startswith('dmgsweep') for l in lines) and len({l.split()[1] for l in lines if l[:2] in ('w ', 'd ')}) >= 2,
     features=restart_features,
     rule=("random histories with blob switches, deletes into closed blobs, settle points and restarts; at random "
@@ -612,7 +612,8 @@ PROPS['C10'] = dict(
     gen=lambda rng, tier: gen.filter_scenario(rng, size=tier),
     p_cmds={'cf', 'cfs', 'gfc', 'c', 'bloom', 'bloom2'},
     oracle_cmds={'cf', 'cfs', 'gfc', 'c', 'states'},
-    impl_only_cmds={'cf', 'cfs', 'gfc'},      # false positives are allowed; only the Spec oracle (no false negative) judges them
+    # cf / cfs / gfc are compared with the model bit for bit (FilterDriver: per-blob filters + container) AND judged by the
+    # no-false-negative oracle
     count={'quick': 120, 'thorough': 1500},
     nontrivial=lambda lines: any(l.startswith('offload') for l in lines) or any(l.startswith('restore_active') for l in lines),
     features=filter_features,
